@@ -184,6 +184,9 @@ def validate_translation(out, g, enc, d, count=10):
             PIN.value = None
         res = translate_tester(g.tester, U, t, r)
         # pin the uninterpreted Is[...] predicates to what the real callables answer
+        if isinstance(obj, bytes):
+            for sub, subobj in list(_subterms(U, t, obj))[1:]:
+                abs_cs += [U.cls(sub) == U.K['int'], U.ival(sub) == int(subobj)]
         for app, f in list(U._preds.values()):
             for sub, subobj in _subterms(U, t, obj):
                 try:
@@ -218,6 +221,11 @@ def validate_translation(out, g, enc, d, count=10):
 def _subterms(U, t, obj, depth=3):
     """(term, real sub-object) pairs reachable from (t, obj) the way abstraction() walks."""
     yield t, obj
+    if isinstance(obj, bytes) and depth > 0:
+        # iterating bytes yields ints: the items are objects of the universe too
+        for i, it in enumerate(obj[:4]):
+            yield U.item(t, z3.IntVal(i)), it
+        return
     if depth <= 0 or isinstance(obj, (str, bytes, type)):
         return
     from . import universe as un
